@@ -73,8 +73,10 @@ static void do_reset(int beh) {
 
 static void do_set(char *p) {
   long pad = hwv_tokl(&p), via = hwv_tokl(&p), nr = hwv_tokl(&p), i;
-  long lo[256], hi[256];
-  if (nr > 256) nr = 256;
+  long *lo, *hi;
+  if (nr < 0 || nr > (1 << 20)) return;
+  lo = malloc(((size_t)nr + 1) * sizeof *lo); hi = malloc(((size_t)nr + 1) * sizeof *hi);
+  if (!lo || !hi) { free(lo); free(hi); return; }
   for (i = 0; i < nr; i++) { lo[i] = hwv_tokl(&p); hi[i] = hwv_tokl(&p); }
   if (via) {
     hwloc_bitmap_fill(reg);                                                   /* complement, negated below */
@@ -91,6 +93,7 @@ static void do_set(char *p) {
   out("{\"e\":\"set\",\"pad\":%ld,\"via\":%ld,\"req\":[", pad, via);
   for (i = 0; i < nr; i++) out("%s[%ld,%ld]", i ? "," : "", lo[i], hi[i]);
   out("],\"set\":"); out_ranges(reg); out("}"); out_end();
+  free(lo); free(hi);
 }
 
 static void do_asprintf(char *p) {
